@@ -146,6 +146,39 @@ pub fn collapse_case(_ctx: &Ctx, st: &mut Stats, rng: &mut Rng, tcs: &[String], 
     }
 }
 
+/// build() first without the option, then enable it and build again (also on a clone): the result must be
+/// the one a fresh builder gives, in particular case variants must collapse.
+fn history_collapse(st: &mut Stats, tcs: &[String], s: Settings) {
+    use grex::RegExpBuilder;
+    let s_ci = s.or(CI);
+    let fresh = build(tcs, s_ci);
+    let r = std::panic::catch_unwind(std::panic::AssertUnwindSafe(|| {
+        let mut b = RegExpBuilder::from(tcs);
+        s.without(CI).apply(&mut b);
+        let _first = b.build();
+        b.with_case_insensitive_matching();
+        let second = b.build();
+        let cloned = b.clone().build();
+        (second, cloned)
+    }));
+    st.evaluations += 1;
+    match (fresh, r) {
+        (Ok(f), Ok((second, cloned))) => {
+            st.decided += 1;
+            st.count("history_collapse_checks");
+            if second != f || cloned != f {
+                let mut case = case_json(tcs, s_ci);
+                case["what"] = json!("history_collapse");
+                case["fresh"] = json!(f);
+                case["after_history"] = json!(second);
+                case["clone_after_history"] = json!(cloned);
+                st.violation("case_variants_do_not_collapse_after_history", format!("build(); with_case_insensitive_matching(); build() gives {:?}, a fresh builder gives {:?}", second, f), case);
+            }
+        }
+        _ => st.inconclusive("panic in history collapse probe (C07's concern)"),
+    }
+}
+
 fn sweep(st: &mut Stats, c: char, flags: u32) {
     st.evaluations += 1;
     let tcs = vec![c.to_string()];
@@ -230,6 +263,9 @@ pub fn run(ctx: &Ctx) -> i32 {
         st.count(&format!("random_{name}"));
         check_case(ctx, st, &tcs, s);
         collapse_case(ctx, st, &mut rng, &tcs, s);
+        if i % 4 == 0 {
+            history_collapse(st, &tcs, s);
+        }
     });
     // sweep: every scalar as a one-character test case
     let stride = if ctx.thorough { 1 } else { 29 };
